@@ -242,7 +242,22 @@ func cbcEncrypt(pt, iv []byte, pad bool) []byte {
 }
 
 func validJwe(t *rapid.T) []byte {
-	switch rapid.IntRange(0, 5).Draw(t, "jwek") {
+	switch rapid.IntRange(0, 6).Draw(t, "jwek") {
+	case 6: // JSON objects WITHOUT a protected header (alg/enc in "unprotected" or "header"), validly sealed by an independent AES-GCM
+		key := symKeys[0]
+		hdr := `{"alg":"dir","enc":"A128GCM"` + rapid.SampledFrom([]string{"", "", `,"zip":"DEF"`, `,"kid":"k"`}).Draw(t, "uhx") + `}`
+		aadMember, aad := "", ""
+		if rapid.Bool().Draw(t, "uaad") {
+			a := b64(rtmpx.Fill(rapid.IntRange(0, 9).Draw(t, "uaadlen"), 9))
+			aadMember, aad = `"aad":"`+a+`",`, "."+a
+		}
+		blk, _ := aes.NewCipher(key)
+		gcm, _ := cipher.NewGCM(blk)
+		iv := rtmpx.Fill(12, rapid.Uint64().Draw(t, "uiv"))
+		sealed := gcm.Seal(nil, iv, rtmpx.Fill(rapid.IntRange(0, 40).Draw(t, "uptl"), 5), []byte(aad))
+		ct, tag := sealed[:len(sealed)-16], sealed[len(sealed)-16:]
+		where := rapid.SampledFrom([]string{"unprotected", "header"}).Draw(t, "uwhere")
+		return []byte(fmt.Sprintf(`{"%s":%s,%s"iv":"%s","ciphertext":"%s","tag":"%s"}`, where, hdr, aadMember, b64(iv), b64(ct), b64(tag)))
 	case 0: // validly authenticated objects over hostile sizes
 		iv := rtmpx.Fill(rapid.SampledFrom([]int{16, 16, 16, 0, 1, 12, 15, 17, 32}).Draw(t, "ivlen"), 3)
 		var ct []byte
